@@ -124,7 +124,7 @@ def main():
         body = ['#![allow(non_snake_case)]']
         for i, (mac, ty, t, s, acc) in okl:
             lit = rust_lit(s, i % 7 == 3)
-            body.append('fn t%d() -> u32 { const M: &%s = iref::%s!(%s); let r = <%s>::new(%s).unwrap(); if !(M.as_str() == %s && M == r && M.as_bytes() == r.as_bytes() && format!("{:?}", M.path()) == format!("{:?}", r.path()) && M.authority().map(|a| a.as_bytes()) == r.authority().map(|a| a.as_bytes()) && M.query().map(|a| a.as_bytes()) == r.query().map(|a| a.as_bytes()) && M.fragment().map(|a| a.as_bytes()) == r.fragment().map(|a| a.as_bytes())) { println!("BAD %d {:?}", M.as_str()); 1 } else { 0 } }' % (i, ty, mac, lit, ty, lit, lit, i))
+            body.append('fn t%d() -> u32 { const M: &%s = iref::%s!(%s); let r = <%s>::new(%s).unwrap(); if !(M.as_bytes() == %s.as_bytes() && M.as_str() == %s && M == r && M.as_bytes() == r.as_bytes() && format!("{:?}", M.path()) == format!("{:?}", r.path()) && M.authority().map(|a| a.as_bytes()) == r.authority().map(|a| a.as_bytes()) && M.query().map(|a| a.as_bytes()) == r.query().map(|a| a.as_bytes()) && M.fragment().map(|a| a.as_bytes()) == r.fragment().map(|a| a.as_bytes())) { println!("BAD %d {}", M.as_bytes().iter().map(|b| format!("{:02x}", b)).collect::<String>()); 1 } else { 0 } }' % (i, ty, mac, lit, ty, lit, lit, lit, i))
         body += ['fn main() {', '    let fs: &[fn() -> u32] = &[' + ', '.join('t%d' % i for i, _ in okl) + '];', '    let mut bad = 0;', '    for f in fs { bad += f(); }', '    println!("DONE {}", bad);', '}']
         bdir = crate('valcheck', '\n'.join(body) + '\n', 'bin')
         rc, out, err = sh(['cargo', 'run', '--offline', '-q', '-j', '16'], cwd=bdir, env=env, timeout=3000, check=False)
@@ -133,7 +133,7 @@ def main():
         for l in out.split('\n'):
             if l.startswith('BAD'):
                 i = int(l.split()[1]); nviol += 1
-                R.violation({'kind': 'the value produced by the macro differs from the run-time parse', 'macro': lits[i][0] + '!', 'literal': lits[i][3], 'observed_text': l.split(' ', 2)[2]}, no_input=False)
+                R.violation({'kind': 'the value produced by the macro differs from the run-time parse', 'macro': lits[i][0] + '!', 'literal': lits[i][3], 'observed_bytes_hex': l.split(' ', 2)[2], 'expected_bytes_hex': lits[i][3].encode('utf-8', 'surrogatepass').hex()}, no_input=False)
     finally:
         shutil.rmtree(tmp, ignore_errors=True)
     R.cov['evaluations'] = len(lits)
